@@ -87,6 +87,9 @@ namespace tfel::math {
   struct ResultType<T1, vsym::sym, Op> { using type = vsym::sym; };
   template <int N, unsigned int D>
   struct UnaryResultType<vsym::sym, Power<N, D>> { using type = vsym::sym; };
+  // unary minus on math objects holding symbolic scalars (-s for a stensor<N, sym>)
+  template <>
+  struct UnaryResultType<vsym::sym, OpNeg> { using type = vsym::sym; };
   template <typename real> struct CsteBase;
   template <>
   struct CsteBase<vsym::sym> {
